@@ -390,11 +390,11 @@ let predict_ammo fmt en depth nto k fin file toks obs =
         end
     | "json" ->
         (* the JSON text is an oracle (encoding/json): the model starts from the members the tokens say are
-           written on each line (Model/ShootJsonLine.v); code-shaped side: every line decoded into a fresh
-           entity, then the stream decoder and Shoot; specification side: the same entries carrying the tag
+           written on each line (Model/ShootJsonLine.v); code-shaped side: every line decoded into the target the source
+           declares (fresh per line), then the stream decoder and Shoot; specification side: the same entries carrying the tag
            WRITTEN on their own line (line_tag: last tag member, none -> no tag) *)
         let ls = List.map parse_jline toks in
-        let ents = lines_entities ls in
+        let ents = scan_entities gen_jsonline_target ls in   (* the target as translate jsontarget re-reads it *)
         (match read_array simple_url ents with
          | None -> None
          | Some es ->
